@@ -201,6 +201,14 @@ func runC07(w *World, r *Report) {
 	// ---------------------------------------------------------------- bounds (contained) / progress / alloc
 	decideTotalityC07(w, r, funcs, contained)
 
+	// ---------------------------------------------------------------- the stream's parser goroutines
+	r.Rule("handoff", "a parser goroutine returns its pool buffer on every path, also when parsing failed", 1)
+	if so, miss := w.streamObjs(); miss != "" {
+		r.Fail(VViolation, "handoff", "util.MessageStream", "", "-", miss)
+	} else {
+		streamParseHandoff(w, r, so)
+	}
+
 	// ---------------------------------------------------------------- result
 	{
 		var msgObj, errObj types.Object
